@@ -6,6 +6,8 @@ import (
 	"reflect"
 	"strings"
 
+	"go.mongodb.org/mongo-driver/bson"
+
 	"github.com/256dpi/lungo/bsonkit"
 )
 
@@ -57,6 +59,25 @@ func validateReplacement(doc bsonkit.Doc) error {
 		return fmt.Errorf("replacement document cannot contain keys beginning with '$'")
 	}
 	return nil
+}
+
+// copyValue returns a deep copy of a stored value, so that values handed to the
+// caller (ids, distinct values) do not share memory with stored documents.
+func copyValue(v interface{}) interface{} {
+	doc, err := bsonkit.Transform(bson.D{{Key: "v", Value: v}})
+	if err != nil || len(*doc) != 1 {
+		return v
+	}
+	return (*doc)[0].Value
+}
+
+// copyValues returns a deep copy of a list of stored values.
+func copyValues(list bson.A) bson.A {
+	res := make(bson.A, len(list))
+	for i, v := range list {
+		res[i] = copyValue(v)
+	}
+	return res
 }
 
 func useTransaction(ctx context.Context, engine *Engine, lock bool, fn func(*Transaction) (interface{}, error)) (interface{}, error) {
